@@ -101,6 +101,7 @@ class PEvent:
     pure: bool = False
     label: str = ""
     awaited: bool = False
+    callee: Any = None  # symbolic value of the called expression (Name / Attribute callee)
 
     @property
     def lineno(self) -> int:
@@ -152,6 +153,17 @@ class SymPath:
 
     def stores(self) -> list[PEvent]:
         return [e for e in self.events if e.kind == "store"]
+
+    def local_at(self, ev: PEvent, name: str) -> Any:
+        """value of local `name` when event `ev` happens (None if never assigned before)"""
+        val = None
+        for it in self.items:
+            if it[0] == "ev":
+                if it[1] is ev:
+                    return val
+                if it[1].kind == "lstore" and it[1].loc == ("local", name):
+                    val = it[1].value
+        return val
 
     def index_of(self, ev: PEvent) -> int:
         for i, it in enumerate(self.items):
@@ -570,7 +582,7 @@ class PathEngine:
                 old = env.get(tgt.id, ("free", tgt.id))
                 val = ("op", BIN[type(aug)], old, val)
             env[tgt.id] = val
-            return env, store, items
+            return env, store, items + [("ev", PEvent("lstore", node, loc=("local", tgt.id), value=val, label=f"{tgt.id} = {show(val)}"[:80]))]
         if isinstance(tgt, (ast.Tuple, ast.List)):
             for i, e in enumerate(tgt.elts):
                 if val[0] == "tuple" and i < len(val[1]):
@@ -637,6 +649,11 @@ class PathEngine:
         else:
             res = ("call", node.id, label)
         ev = PEvent("call", node, targets=targets, recv=recv, args=args, kwargs=kwargs, result=res, pure=pure, label=label, awaited=bool(node.info.get("awaited")))
+        if isinstance(f, ast.Name):
+            try:
+                ev.callee = self.sym(f, env, store, cfg)
+            except AnalysisError:
+                ev.callee = None
         items2 = items + [("ev", ev)]
         if raises is not None:
             for kind in raises(ev, cfg):
@@ -799,3 +816,68 @@ def match(t: Any, pat: Any, binds: dict | None = None) -> dict | None:
                 return None
         return binds
     return binds if t == pat else None
+
+
+# ---------------------------------------------------------------------------
+# concrete evaluation of pure terms / path conditions under an assignment of leaves
+# ---------------------------------------------------------------------------
+
+class CannotEval(Exception):
+    pass
+
+
+def evaluate(t: Any, leaf: Callable[[Any], Any]) -> Any:
+    """evaluate a pure term; `leaf(term)` supplies values for non-structural terms
+    (raise CannotEval when unknown).  Supports ite / bool / not / cmp is,== / tuple / const."""
+    k = t[0]
+    if k == "const":
+        return t[1]
+    if k == "enum":
+        return t
+    if k == "tuple":
+        return tuple(evaluate(x, leaf) for x in t[1])
+    if k == "ite":
+        return evaluate(t[2], leaf) if truth(t[1], leaf) else evaluate(t[3], leaf)
+    if k == "bool":
+        v = None
+        for x in t[2]:
+            v = evaluate(x, leaf)
+            if t[1] == "or" and v:
+                return v
+            if t[1] == "and" and not v:
+                return v
+        return v
+    if k in ("not", "cmp", "truth"):
+        return truth(t, leaf)
+    return leaf(t)
+
+
+def truth(c: Any, leaf: Callable[[Any], Any]) -> bool:
+    if c[0] == "not":
+        return not truth(c[1], leaf)
+    if c[0] == "truth":
+        return truth(c[1], leaf)
+    if c[0] == "cmp" and c[1] in ("is", "=="):
+        return evaluate(c[2], leaf) == evaluate(c[3], leaf)
+    if c[0] == "cmp" and c[1] == "in" and c[3][0] in ("tuple", "set"):
+        v = evaluate(c[2], leaf)
+        return any(v == evaluate(x, leaf) for x in c[3][1])
+    if c[0] == "bool":
+        return bool(evaluate(c, leaf))
+    return bool(evaluate(c, leaf))
+
+
+def feasible_paths(paths: list[SymPath], leaf: Callable[[Any], Any]) -> list[SymPath]:
+    out = []
+    for p in paths:
+        ok = True
+        for a, pol, _ in p.conds:
+            try:
+                if truth(a, leaf) != pol:
+                    ok = False
+                    break
+            except CannotEval:
+                continue
+        if ok:
+            out.append(p)
+    return out
